@@ -489,6 +489,38 @@ def t4_sign_survives(ctx: Ctx):
     ctx.check(len(users) >= 1, NEGZERO, fn, '_sign_survives', 'the predicate is consulted by the rewriter', 'no caller')
 
 
+def t8_special_operands(ctx: Ctx):
+    """What UnfoldOverflow's emitted program does with NaN and the infinities has to be what the source context does --
+    including *refusing* them: a branch can assign a value, it cannot raise.  `_Prober._specials`, evaluated from its
+    source: for each special, (source result, emitted result) agree -> no branch; both are values and differ -> a branch
+    with the source's values; the source refuses where the emitted program would not -> the context is declined."""
+    from ..minipy import Interp, Obj
+    fn = ctx.fn(OVERFLOW, '_Prober._specials')
+    NAN, NNAN, PINF, NINF = Obj('nan'), Obj('-nan'), Obj('+inf'), Obj('-inf')
+    A, B, C = Obj('value A'), Obj('value B'), Obj('value C')
+    rows = [
+        ('the source refuses NaN, the emitted program returns one', {NAN: None, NNAN: None, PINF: A, NINF: B}, {NAN: C, NNAN: C, PINF: A, NINF: B}, 'declined'),
+        ('the source refuses the infinities, the emitted program saturates them', {NAN: A, NNAN: A, PINF: None, NINF: None}, {NAN: A, NNAN: A, PINF: B, NINF: C}, 'declined'),
+        ('the source refuses one sign only', {NAN: A, NNAN: A, PINF: B, NINF: None}, {NAN: A, NNAN: A, PINF: B, NINF: C}, 'declined'),
+        ('both refuse the same specials', {NAN: None, NNAN: None, PINF: A, NINF: B}, {NAN: None, NNAN: None, PINF: A, NINF: B}, 'no branch'),
+        ('both give the same values', {NAN: A, NNAN: A, PINF: B, NINF: C}, {NAN: A, NNAN: A, PINF: B, NINF: C}, 'no branch'),
+        ('values differ for the infinities', {NAN: A, NNAN: A, PINF: B, NINF: C}, {NAN: A, NNAN: A, PINF: A, NINF: A}, 'branch'),
+    ]
+    for label, want, emitted, verdict in rows:
+        it = Interp({}, {}, globals_={'_NAN': NAN, '_POS_INF': PINF, '_NEG_INF': NINF}, self_obj=Obj('_Prober', ctx='SRC'),
+                    overrides={'Float': lambda x=None, s=None: NNAN, 'try_round': lambda c, x, w=want: w[x], 'self._emitted': lambda x, src, g=emitted: g[x],
+                               'agrees': lambda a, b: a is b})
+        got = it.call_function(fn, ['src'], bound_self=True)
+        if verdict == 'declined':
+            ok = got is None
+        elif verdict == 'no branch':
+            ok = isinstance(got, tuple) and all(x is None for x in got)
+        else:
+            ok = isinstance(got, tuple) and got[0] is None and got[1] == (want[PINF], want[NINF])
+        ctx.check(ok, OVERFLOW, fn, '_Prober._specials', f'{label}: {verdict}',
+                  f'answers {got!r}: MPBFloatContext(..., SATURATE, enable_inf=False) raises on +inf, the rewritten program returns the largest value')
+
+
 def t7_wrapping_declined(ctx: Ctx):
     """UnfoldOverflow writes the overflow value out as a constant, so it needs a format whose overflow is one.  It asks by
     rounding two operands far apart; a wrapping format answers modulo its number of values, and two probes can agree by
@@ -604,6 +636,7 @@ def f3_rebuild_parameters(ctx: Ctx):
 RULES = [
     Rule('C10.T3', 'float-to-fixed: the overflow policy is accepted only when both overflow probes show it', t3_overflow_policy, 1, 'T'),
     Rule('C10.T4', 'negative-zero unfolding is refused exactly where a zero of foreign sign is reachable (wrap, or a zero substituted for a disabled NaN / infinity)', t4_sign_survives, 2, 'T'),
+    Rule('C10.T8', 'overflow unfolding: a special the source refuses and the emitted program would accept declines the context', t8_special_operands, 6, 'T'),
     Rule('C10.T7', 'overflow unfolding declines a wrapping format by its mode, not only by two probes that may coincide', t7_wrapping_declined, 4, 'T'),
     Rule('C10.T6', 'no addition or subtraction is moved across a round-toward-negative scope (its rounding decides the sign of a zero sum)', t6_zero_sum_scopes, 8, 'T'),
     Rule('C10.T5', 'special-value unfolding sheds the infinity rule only where no finite operand reaches the infinity (either sign, random bits)', t5_shed_rules, 1, 'T'),
@@ -621,6 +654,9 @@ RULES = [
 from ..selftest import Mutant  # noqa: E402
 
 MUTANTS = [
+    Mutant('refused-special-left-to-the-rounding', OVERFLOW, "            want = (try_round(self.ctx, pos), try_round(self.ctx, neg))\n", "            want = (try_round(self.ctx, pos), try_round(self.ctx, neg))\n            if want[0] is None and want[1] is None:\n                out.append(None)\n                continue\n", 'C10.T8',
+           'seeded change C10e: a bounded float context that refuses the infinities is rewritten to one that saturates them'),
+    Mutant('one-sided-refusal-gets-a-branch', OVERFLOW, "            elif want[0] is None or want[1] is None:", "            elif want[0] is None and want[1] is None:", 'C10.T8'),
     Mutant('wrapping-format-judged-by-two-probes', OVERFLOW, "        if getattr(self.ctx, 'overflow', None) is OverflowMode.WRAP:", "        if False:", 'C10.T7',
            'finding F86 before its repair: SMFixedContext(0, 3) lowered to a constant overflow'),
     Mutant('saturating-format-declined-too', OVERFLOW, "        if getattr(self.ctx, 'overflow', None) is OverflowMode.WRAP:", "        if getattr(self.ctx, 'overflow', None) is not OverflowMode.OVERFLOW:", 'C10.T7'),
